@@ -1495,6 +1495,7 @@ fn is_subsequence(small: &str, big: &str) -> bool {
     small.chars().all(|c| it.any(|d| d == c))
 }
 
+#[derive(Clone)]
 enum Shrunk {
     To(String, String),
     OutOfTime,
@@ -1581,6 +1582,85 @@ impl Shrinker<'_> {
             }
         }
         cur
+    }
+
+    /// Shrink many inputs that fail with the same signature. Most of them are resolved without
+    /// a shrink of their own: a minimal text found earlier is a sub-sequence of the input, or
+    /// of the input with one token made canonical (one confirming run, all such runs of a
+    /// round in parallel). Only what is left is shrunk, shortest first.
+    fn resolve_many(&mut self, texts: &[String], sig: &str) -> HashMap<String, Shrunk> {
+        const CANON: [&str; 3] = [";", "a", "0"];
+        let mut out: HashMap<String, Shrunk> = HashMap::new();
+        let mut pending: Vec<&String> = texts.iter().collect();
+        pending.sort_by_key(|t| (t.len(), t.as_str()));
+        pending.dedup();
+        loop {
+            // a known minimal text is obtainable by deletions
+            let frags: Vec<(String, String)> = self.minimal.get(sig).cloned().unwrap_or_default();
+            pending.retain(|t| match frags.iter().find(|(f, _)| is_subsequence(f, t)) {
+                Some((f, d)) => {
+                    out.insert((*t).clone(), Shrunk::To(f.clone(), d.clone()));
+                    false
+                }
+                None => true,
+            });
+            if pending.is_empty() {
+                break;
+            }
+            // ... or by one canonical token and deletions
+            if !frags.is_empty() && !self.out_of_time() {
+                let mut cands: Vec<(usize, String, usize)> = vec![];
+                for (pi, t) in pending.iter().enumerate().take(1024) {
+                    let units = split_units(t);
+                    let mut n = 0;
+                    'case: for (i, u) in units.iter().enumerate().filter(|(_, u)| !u.ws) {
+                        for c in CANON.iter().filter(|c| **c != u.text) {
+                            let y: String = units.iter().enumerate().map(|(k, x)| if k == i { *c } else { x.text.as_str() }).collect();
+                            if let Some(fi) = frags.iter().position(|(f, _)| is_subsequence(f, &y)) {
+                                cands.push((pi, y, fi));
+                                n += 1;
+                                if n >= 4 {
+                                    break 'case;
+                                }
+                            }
+                        }
+                    }
+                }
+                let res = vcore::par_for(cands.len(), self.threads, |i| {
+                    self.prober.probe(&Case::plain(cands[i].1.clone()), self.fast_timeout_ms).has(sig)
+                });
+                let mut done: HashSet<usize> = HashSet::new();
+                for ((pi, _, fi), ok) in cands.iter().zip(res) {
+                    if ok && done.insert(*pi) {
+                        out.insert(pending[*pi].clone(), Shrunk::To(frags[*fi].0.clone(), frags[*fi].1.clone()));
+                    }
+                }
+                let mut k = 0;
+                pending.retain(|_| {
+                    k += 1;
+                    !done.contains(&(k - 1))
+                });
+                if pending.is_empty() {
+                    break;
+                }
+            }
+            // shrink the shortest one left; its minimal text may resolve others
+            let t = pending.remove(0);
+            match self.shrink(t, sig) {
+                Shrunk::OutOfTime => {
+                    out.insert(t.clone(), Shrunk::OutOfTime);
+                    for t in pending.drain(..) {
+                        self.cut_short += 1;
+                        out.insert(t.clone(), Shrunk::OutOfTime);
+                    }
+                    break;
+                }
+                r => {
+                    out.insert(t.clone(), r);
+                }
+            }
+        }
+        out
     }
 
     /// A smaller text that still fails with `sig` (deletions, then canonical tokens),
@@ -1959,10 +2039,17 @@ fn main() {
         minimal: BTreeMap::new(),
         threads: vcore::ncores(),
         deadline: Instant::now() + Duration::from_secs(tier.pick(25, 150)),
-        fast_timeout_ms: tier.pick(300, 1000),
+        fast_timeout_ms: 300,
         cut_short: 0,
         hang_stage: HashMap::new(),
     };
+    // the hangs are resolved together (every confirming run of a hang costs a deadline)
+    let hang_texts: Vec<String> = failing
+        .iter()
+        .filter(|f| f.sig == "hang" && f.case.is_plain())
+        .map(|f| f.case.root_text().to_string())
+        .collect();
+    let mut hang_results = shr.resolve_many(&hang_texts, "hang");
     // panic signature (stage, file, line) -> key of its class, fixed by its shortest example
     let mut panic_keys: HashMap<String, String> = HashMap::new();
     // (key, example text, signature) of panic classes whose example is still to be shrunk
@@ -2008,7 +2095,12 @@ fn main() {
             }
             (key, format!("input {:?}: {}", trunc(f.case.root_text(), 120), f.detail), f.case.to_json())
         } else {
-            match shr.shrink(f.case.root_text(), &f.sig) {
+            let shrunk = if f.sig == "hang" {
+                hang_results.remove(f.case.root_text()).unwrap_or(Shrunk::OutOfTime)
+            } else {
+                shr.shrink(f.case.root_text(), &f.sig)
+            };
+            match shrunk {
                 Shrunk::NotReproduced => {
                     unreproduced += 1;
                     transient.push(json!({"space": f.space, "index": f.idx, "input": trunc(f.case.root_text(), 200), "worker": f.detail}));
